@@ -22,11 +22,13 @@ Inductive field :=
 | HF (name : string)      (* Header().<name> *)
 | DF (name : string)      (* DataPack.<name> (class attribute) *)
 | PyEnv                   (* ISOLATED_ENVIRONMENT.exec_global *)
-| PyPending.              (* ISOLATED_ENVIRONMENT.content (emitted but not yet collected) *)
+| PyPending               (* ISOLATED_ENVIRONMENT.content (emitted but not yet collected) *)
+| OS (name : string).     (* round 4: process-global state of the interpreter / operating system that a compile can see and
+                             must PRESERVE: "cwd", "environ", "sys.path", "sys.modules", "signal", "locale", "warnings", "logging" *)
 
 Definition field_eqb (a b : field) : bool :=
   match a, b with
-  | HF x, HF y | DF x, DF y => String.eqb x y
+  | HF x, HF y | DF x, DF y | OS x, OS y => String.eqb x y
   | PyEnv, PyEnv | PyPending, PyPending => true
   | _, _ => false
   end.
@@ -39,7 +41,11 @@ Inductive source :=
 | SrcInput                      (* a function of the compile's input only: the jmc.txt value or a constant default, the --env list *)
 | SrcInputOrPrev (g : field).   (* a function of the input and of the CURRENT value of field g: cert.get(KEY, <value of g>) *)
 
-Inductive readset := RAll | RHeaderOnly.
+Inductive readset :=
+| RAll
+| RHeaderOnly
+| RHeaderPlus (l : list field).  (* round 4: the Header's fields and the listed further fields (the reads of the phase's code found in
+                                    the source: jmc.txt names read by a check that runs while the header is parsed, the working directory) *)
 
 Inductive step :=
 | Assign (f : field) (s : source)                   (* unconditional assignment *)
@@ -48,7 +54,8 @@ Inductive step :=
 | Run (name : string) (r : readset).                (* a phase of the compiler: reads/writes the fields of r, may end the compile *)
 
 Definition is_header (f : field) : bool := match f with HF _ => true | _ => false end.
-Definition visible (r : readset) (f : field) : bool := match r with RAll => true | RHeaderOnly => is_header f end.
+Definition visible (r : readset) (f : field) : bool :=
+  match r with RAll => true | RHeaderOnly => is_header f | RHeaderPlus l => is_header f || mem f l end.
 
 (* ------------------------------------------------------------------ the decidable predicate *)
 
@@ -70,6 +77,24 @@ Fixpoint analyse (U : list field) (steps : list step) (D : list field) : option 
 
 Definition history_free (U : list field) (steps : list step) : bool :=
   match analyse U steps [] with Some _ => true | None => false end.
+
+(* round 4: the same analysis started from a set A of AMBIENT fields (working directory, environment, sys.path, ...): fields no compile
+   assigns, whose value is the one the process started with as long as every earlier compile PRESERVED it *)
+Definition history_free_from (A U : list field) (steps : list step) : bool :=
+  match analyse U steps A with Some _ => true | None => false end.
+
+(* step lists of the simple shape the current source has: assignments from constants / from the input only *)
+Definition simple_step (s : step) : bool :=
+  match s with Assign _ SrcConst | Assign _ SrcInput | Guard _ | Run _ _ => true | _ => false end.
+Definition simple (steps : list step) : bool := forallb simple_step steps.
+Definition no_assign_when (steps : list step) : bool :=
+  forallb (fun s => match s with AssignWhen _ _ _ => false | _ => true end) steps.
+
+(* "no read of a stale value": wherever a phase stands in the step list, every field of U it can see is ambient or has been
+   assigned EARLIER IN THE SAME COMPILE (on this entry point's path) *)
+Definition resets_before_reads (A U : list field) (steps : list step) : Prop :=
+  forall pre n rs post, steps = pre ++ Run n rs :: post ->
+    forall f, In f U -> visible rs f = true -> mem f A = true \/ exists s, In (Assign f s) pre.
 
 (* the first Run that reads an undetermined field, with the offending fields (for diagnostics) *)
 Fixpoint first_leak (U : list field) (steps : list step) (D : list field) : option (string * list field) :=
@@ -146,6 +171,15 @@ Section Sem.
     | [] => g
     | (steps, i) :: r => run_history r (fst (exec steps i g))
     end.
+
+  (* round 4: every compile of the history leaves the ambient fields as it found them (what the sequence runner observes: the snapshot of
+     cwd / environ / sys.path / ... after each compile, successful or failing, equals the snapshot before it) *)
+  Fixpoint preserves_along (A : list field) (h : list (list step * I)) (g : G) : Prop :=
+    match h with
+    | [] => True
+    | (steps, i) :: r =>
+        (forall f, mem f A = true -> fst (exec steps i g) f = g f) /\ preserves_along A r (fst (exec steps i g))
+    end.
 End Sem.
 
 Arguments mkWorld {V I O}.
@@ -158,6 +192,7 @@ Arguments w_run {V I O}.
 Arguments exec {V I O} U W steps i g.
 Arguments output {V I O} U W steps i g.
 Arguments run_history {V I O} U W h g.
+Arguments preserves_along {V I O} U W A h g.
 Arguments upd {V} g f v.
 
 (* ------------------------------------------------------------------ iteration over a set (hash-seed part) *)
